@@ -182,3 +182,14 @@ prop("C09", level="exploration", bounded=True,
           "building blocks they share with other properties (union iterator, updatePayloads' callers) are covered under C04/C08.",
      note="Exploration level. Known finding: swapRanks rejects an empty fiber by assertion (pinned test).",
      trusted_base=[])
+
+prop("C13", level="exploration", bounded=True,
+     technique="bounded: round trips on the real converters over exhaustively enumerated rectangular nests, real YAML files and dictionary forms",
+     text="Bounded (not proved): every rectangular nest for 14 dimension sets of depth 1-3 over {0,1,2} (as fiber and as tensor, leaf default 0 and 1) and "
+          "seeded random nests of depth 3-4 with float entries and all-default blocks: content == non-default entries, shape == dimensions, no stored "
+          "default, uncompress(shape) == the nest; YAML dump + load (real files) and fiber2dict/dict2fiber for depth-2 trees with explicit defaults and "
+          "empty sub-fibers, float nests, rank-0 tensors, split/swizzled/flattened tensors (rank ids, shape, name, equality); fromRandom over seeds: "
+          "reproducible, inside the shape, full at density 1. No deductive part: _makeFiber/uncompress/dict2fiber recurse over heterogeneous nested "
+          "lists and dictionaries, YAML and random are external; the union loop that uncompress relies on is proved under C04.",
+     note="Exploration level. Known finding: tuple-coordinate tensors do not reload (safe_load rejects python/tuple).",
+     trusted_base=["yaml, random (external)"])
